@@ -683,7 +683,7 @@ func main() {
 			run.Sample(c)
 		}
 	}
-	rounds := run.N(10, 500)
+	rounds := run.N(24, 500)
 	pools := []string{"mempool", "aligned"}
 	for round := 0; round < rounds; round++ {
 		for _, L := range limits {
